@@ -64,6 +64,8 @@ private:
 
     // incoming stream state
     QString m_streamOpenElement;
+    // incremented by disconnectFromHost(): lets processData() notice that a handler closed the stream
+    quint32 m_disconnectCount = 0;
 };
 
 }  // namespace QXmpp::Private
